@@ -65,7 +65,7 @@ func (C11) Generate(r *core.Rand, tier string, idx int) *core.Scenario {
 	sc := &core.Scenario{Property: "C11", Cfg: map[string]int{}}
 	c11CurIdx = idx
 	sc.Cfg["frag"] = r.Intn(5)
-	if r.P(1, 3) {
+	if r.P(1, 2) {
 		sc.Cfg["burst"] = 1
 	}
 	if r.P(1, 4) {
@@ -73,6 +73,9 @@ func (C11) Generate(r *core.Rand, tier string, idx int) *core.Scenario {
 	}
 	sc.Cfg["nopar"] = r.Intn(2)
 	// input classes that hit recorded defects: each in a small share of the runs
+	if r.P(1, 2) {
+		sc.Cfg["pipeend"] = 1 // bursts may continue behind a LOGOUT or the error that ends the session
+	}
 	// input classes whose defects were repaired: each in half of the runs
 	for _, k := range []string{"lit0", "openquote", "barelf", "emptytag", "listutf8", "starttls", "firstbad"} {
 		if r.P(1, 2) {
@@ -225,10 +228,11 @@ func (x *c11X) logf(format string, args ...any) {
 	}
 }
 
-// burst: pipelined delivery.  With the knobs that let a line end be swallowed the
-// matcher has to stay in lock step to tell the recorded defects apart.
+// burst: pipelined delivery.  (While the defects that let a line end be swallowed were
+// open - open quoted string, bare LF - runs with those input classes stayed in lock step
+// to tell the defects apart; both are repaired.)
 func (x *c11X) burst() bool {
-	return x.sc.C("burst") == 1 && !x.kn.openquote && !x.kn.barelf
+	return x.sc.C("burst") == 1
 }
 
 func (x *c11X) quiesce(phase string) {
@@ -915,8 +919,14 @@ func (g *c11G) deliver(b []byte) {
 			// is inside a quoted string of the following line, the reader spins
 			// (recorded defect), and whether it is there at that moment is a race.
 			pt := g.pend[max(0, len(g.pend)-64):]
-			if c11LitRe.Match(pt) || c11IdleTailRe.Match(pt) || c11LogoutTailRe.Match(pt) || bareLF ||
-				g.consecBad+g.burstLines >= 19 || len(g.pend) > 1<<20 {
+			// Since that defect is repaired (d3e4ccf), half of the runs (cfg pipeend) keep the
+			// burst going: lines pipelined behind the end of the session are part of the
+			// quantifier, and the reader that parsed them must not outlive the session.
+			endsSession := c11LogoutTailRe.Match(pt) || g.consecBad+g.burstLines >= 19
+			if g.x.sc.C("pipeend") == 1 {
+				endsSession = false
+			}
+			if c11LitRe.Match(pt) || c11IdleTailRe.Match(pt) || endsSession || bareLF || len(g.pend) > 1<<20 {
 				g.flushBurst()
 			}
 		}
